@@ -1320,6 +1320,25 @@ fn random_histories(rep: &mut Report, params: &Params, count: u64, t: &mut Tally
     }
 }
 
+/// Not judged: `on_keepalive_timer_expired` re-arms with `keepalive_interval`, which
+/// is 0 when the negotiated hold time is 0.  The driver never feeds that input in
+/// this situation (the keepalive timer is never armed), so the statement is not
+/// violated; the FSM is probed directly and the answer counted.
+fn probe_latent_keepalive_zero(rep: &mut Report) {
+    let pair = Pair::new(0, 0, Role::Active);
+    let mut fsm = pair.fsm();
+    let _ = fsm.process(pair.role, Input::Connected(false));
+    let _ = fsm.process(pair.role, Input::MessageReceived(pair.open.clone()));
+    let _ = fsm.process(pair.role, Input::MessageReceived(bgp::Message::Keepalive));
+    let outs = fsm.process(pair.role, Input::KeepaliveTimerExpired);
+    let f = facts(&outs);
+    rep.count(if f.set_ka.contains(&0) {
+        "unjudged:latent:keepalive-expiry-with-zero-interval-emits-set-keepalive-timer-0"
+    } else {
+        "unjudged:latent:keepalive-expiry-with-zero-interval-harmless"
+    });
+}
+
 #[test]
 fn run() {
     let params = Params::from_args_env();
@@ -1335,6 +1354,9 @@ fn run() {
         if part == "all" || part == "random" {
             let n = params.get_u64("random", params.n(10_000, 300_000));
             random_histories(&mut rep, &params, n, &mut t);
+        }
+        if (part == "all" || part == "random") && shard_index(&params) == 0 {
+            probe_latent_keepalive_zero(&mut rep);
         }
         if part == "real" {
             rep.max_samples = 8;
